@@ -1688,7 +1688,23 @@ impl<'a> CompositionGraphEncoder<'a> {
                 explicit_imports.insert(name.as_str(), n);
                 aggregator = aggregator
                     .aggregate(name, self.0.types(), node.item_kind, &mut checker)
-                    .unwrap();
+                    .map_err(|e| {
+                        // The explicit import conflicts with an implicit import of the same
+                        // name or semver track (or with an earlier explicit import): report
+                        // the instantiation that introduced it first, if there is one.
+                        let first = instantiations
+                            .iter()
+                            .filter(|(k, _)| wac_types::are_semver_compatible(k, name))
+                            .map(|(_, v)| *v)
+                            .min()
+                            .unwrap_or(n);
+                        EncodeError::ImportTypeMergeConflict {
+                            import: name.clone(),
+                            first: NodeId(first),
+                            second: NodeId(n),
+                            source: e,
+                        }
+                    })?;
             }
         }
         Ok(aggregator)
